@@ -189,6 +189,19 @@ theorem openStep_of_open (ops : CryptoOps P) (decP : Bytes → Option P) (v : Na
   simp only [hty, if_false, he, hcb, hC, hR]
   cases openCommitment ops decP e v R i C <;> rfl
 
+/-- the opening step never returns `NoTxPublicKey` (that error comes from the missing transaction key only) -/
+theorem openStep_ne_noTxPublicKey (ops : CryptoOps P) (decP : Bytes → Option P) (v : Nat) (base : Option Base) (i : Nat) (K : Bytes) :
+    openStep ops decP v base i K ≠ .error .noTxPublicKey := by
+  unfold openStep
+  intro h
+  repeat' split at h
+  all_goals cases h
+
+/-- the commitment `y·G + a·H` is computed (no panic of `H.point.decompress().unwrap()`) as soon as the constant `H` decompresses -/
+theorem commit_some (ops : CryptoOps P) (decP : Bytes → Option P) (H : P) (hH : decP Gen.pointH = some H) (y a : Nat) :
+    commit ops decP y a = some (ops.add (ops.smul y ops.base) (ops.smul a H)) := by
+  unfold commit; rw [hH]
+
 /-! ### an honestly built position -/
 
 /-- position `n` of a transaction with RingCT base `b` was built by the by-the-book sender (`Spec.Sender`, `Spec.Amounts`)
